@@ -29,7 +29,7 @@ SAFE_KEYS = [k for k in KEYS if k.isprintable()]
 def gen_value(rng, depth=0, keys=KEYS):
     r = rng.random()
     if depth >= 4 or r < 0.4:
-        return rng.choice([0, 1, -7, 12, 0.5, -2.5, "a", "", "x y", True, False, None, None])
+        return rng.choice([0, 1, -7, 12, 0.5, -2.5, "a", "", "x y", True, False, None, None, 1e-07, 1e+16, 2.5e+20, "1e5", 10 ** 20])
     if r < 0.7:
         q = rng.random()
         if q < 0.15:
@@ -52,6 +52,16 @@ def own_class_name(v):
         return any((k[:1].isalpha() and not k[:1].islower() and isinstance(x, (dict, list))) or own_class_name(x) for k, x in v.items())
     if isinstance(v, list):
         return any(own_class_name(x) for x in v)
+    return False
+
+
+def big_int(v):
+    if isinstance(v, int) and not isinstance(v, bool):
+        return abs(v) > 10 ** 9
+    if isinstance(v, dict):
+        return any(big_int(x) for x in v.values())
+    if isinstance(v, list):
+        return any(big_int(x) for x in v)
     return False
 
 
@@ -88,7 +98,7 @@ def correspond(ctx):
     docs = []
     while len(docs) < ctx.n(150, 2000):
         d = gen_object(rng, 0, SAFE_KEYS)
-        if not own_class_name(d) and not integral_float(d):
+        if not own_class_name(d) and not integral_float(d) and sm.exactly_typed(d) and not big_int(d):
             docs.append(d)
     outs = drv.batch(["infer\t" + sm.json_tokens(d) for d in docs])
     bad = 0
@@ -224,6 +234,18 @@ def in_known_class(sample, form, kind):
     return False
 
 
+COLLIDING = [("content-type", "content_type"), ("max.size", "max_size"), ("class", "class_"), ("1x", "field_1x"), ("copy", "copy_"),
+             ("a b", "a_b"), ("_id", "field_id"), ("in", "in_"), ("x-", "x_")]
+
+
+def colliding_samples():
+    """two keys of one object whose sanitised spellings coincide, in both orders, at the root and nested"""
+    for a, b in COLLIDING:
+        for first, second in ((a, b), (b, a)):
+            yield {first: 1, second: "x", "id": 2}
+            yield {"outer": {first: [1], second: {"k": None}}, "rows": [{first: 1, second: 2}]}
+
+
 def falsify(ctx):
     rng = ctx.rng("fals")
     seen = 0
@@ -244,6 +266,8 @@ def falsify(ctx):
 
     for h in ctx.hints:
         run(h, "json", V2)
+    for sample in colliding_samples():
+        run(sample, rng.choice(["json", "yaml", "dict"]), rng.choice([V2, V2, V1]))
     for i in range(ctx.n(160, 3000)):
         sample = gen_object(rng)
         form = rng.choice(["json", "json", "yaml", "dict"])
